@@ -1,5 +1,5 @@
 # C19 Interpreter instances are isolated from one another
-import random, os, json
+import random, os, json, shutil
 from .common import *
 from . import scheme as S, machine as M, gen as G
 
@@ -8,9 +8,27 @@ def sigs_fn(forms, tag):
     return [{"kind": "vector", "value": " ".join(S.render(f) for f in forms)}]
 
 
+LIBDIRS = {}
+
+
+def library_dirs(ctx):
+    """each instance has its own program directory: (conf) differs between them, (onlya) exists only in A's (MCInterp!Files)"""
+    if not LIBDIRS:
+        for who, files in (("a", {"conf": ("answer", 100), "onlya": ("only-a", 1)}), ("b", {"conf": ("answer", 200)})):
+            d = os.path.join(ctx.dir, "dir-" + who)
+            shutil.rmtree(d, ignore_errors=True); os.makedirs(d)
+            for lib, (name, val) in files.items():
+                with open(os.path.join(d, lib + ".sld"), "w") as f:
+                    f.write("(define-library (%s) (import (scheme base)) (export %s) (begin (define %s %d)))\n" % (lib, name, name, val))
+            LIBDIRS[who] = d
+    return LIBDIRS
+
+
 def interleaved_job(jid, pa, pb, sched, fresh=True):
     """A = interpreter 0, B = interpreter 1; a new instance is created (and used once) at every point"""
     steps = [{"op": "new", "i": 0}, {"op": "new", "i": 1}]
+    if LIBDIRS:
+        steps = [{"op": "new", "i": 0}, {"op": "progdir", "i": 0, "path": LIBDIRS["a"]}, {"op": "new", "i": 1}, {"op": "progdir", "i": 1, "path": LIBDIRS["b"]}]
     ia = ib = 0
     k = 2
     pos = {"a": [], "b": [], "fresh": []}
@@ -34,11 +52,19 @@ def run(ctx):
     if r.violation not in ("Isolated", "IsolatedPrefix"):
         raise ToolError("sensitivity: the shared-syntax-table model was not rejected")
     ctx.stage("model-sensitivity", variant="SharedSyntax (one syntax table per thread, as the implementation was found)", tlc_verdict="%s violated (as required)" % r.violation)
+    r = run_tlc("MCInterp.tla", "MCInterp_sharedfiles.cfg", ctx.dir, workers=8, timeout=1200)
+    if r.violation not in ("Isolated", "IsolatedPrefix"):
+        raise ToolError("sensitivity: the model with a per-thread cache of library files was not rejected")
+    ctx.stage("model-sensitivity", variant="SharedFiles (library files cached per thread by library name)", tlc_verdict="%s violated (as required)" % r.violation)
+    library_dirs(ctx)
     cfg = "MCInterp_quick.cfg" if tier == "quick" else "MCInterp_thorough.cfg"
-    r = run_tlc("MCInterp.tla", cfg, ctx.dir, workers=12, timeout=3000, xmx="12g")
-    require_clean(r, cfg)
-    ctx.add_tlc(r, cfg + " (non-interference on every interleaving)")
-    vecs = sorted(r.vecs, key=canon)
+    vecs = []
+    for c in (cfg, "MCInterp_files.cfg" if tier == "quick" else "MCInterp_files_thorough.cfg"):
+        r = run_tlc("MCInterp.tla", c, ctx.dir, workers=12, timeout=3000, xmx="12g")
+        require_clean(r, c)
+        ctx.add_tlc(r, c + " (non-interference on every interleaving)")
+        vecs += r.vecs
+    vecs = sorted(vecs, key=canon)
     jobs, poss = [], []
     for i, v in enumerate(vecs):
         j, pos = interleaved_job(i, v["pa"], v["pb"], v["sched"])
